@@ -83,7 +83,11 @@ func (p *Peer) s1Take() {
 		p.s1Raw(chNAK)
 		return
 	}
-	p.s1Raw(chACK)
+	if !p.s1Raw(chACK) {
+		// the line died before the acknowledgement got through: by E4 the sender must treat the
+		// block as not delivered, so the peer does not count it as received either
+		return
+	}
 	h := rest[:10]
 	if h[4]&0x80 == 0 { // multi-block messages are not used by this harness
 		return
@@ -145,7 +149,7 @@ func (p *Peer) s1Send(w []byte) error {
 
 func (p *Peer) s1Loop() {
 	defer func() {
-		p.env.record(Event{Typ: 'T', G: p.Gen})
+		p.markDown()
 		close(p.EOF)
 	}()
 	go func() {
